@@ -58,6 +58,19 @@ def run_case(case):
                     continue
                 rel = tree["name"] if tree["single"] else os.path.join(tree["name"], *f["path"])
                 data = sandbox.file_bytes(f)
+                if e["pre"] == "dir-in-the-way":
+                    # an unrelated directory sits at the path the metafile assigns to this file, holding a same-named file
+                    p = os.path.join(dest, rel)
+                    if os.path.lexists(p):
+                        continue
+                    os.makedirs(p)
+                    with open(os.path.join(p, os.path.basename(rel)), "wb") as fd:
+                        fd.write(b"unrelated " * (len(data) // 5 + 3))
+                    with open(os.path.join(p, "notes.txt"), "wb") as fd:
+                        fd.write(b"unrelated")
+                    pre = True
+                    cls.add("pre-dir-in-the-way")
+                    continue
                 if e["pre"] == "wrong-full":
                     data = bytes(b ^ 0x2A for b in data)
                 elif e["pre"] == "sparse-full":
